@@ -222,7 +222,10 @@ func (s *verifHoldCtlSuite) TestVerifHoldCtlRun(c *C) {
 	defer s.w.Flush()
 	s.distinct = map[string]bool{}
 	r := rand.New(rand.NewSource(int64(seed)*7331 + 15))
-	ticks := []int64{1, 2, 23, 24, 47, 47, 49, 49, 30 * 24, 89 * 24, 91 * 24, 96 * 24}
+	// mostly steps around the 48h bound (there is no refresh in these histories: once past lastRefresh+90d every
+	// hold is refused), a few long ones to reach the 90/95-day bounds
+	smallTicks := []int64{1, 2, 23, 24, 46, 47, 47, 49}
+	bigTicks := []int64{30 * 24, 89 * 24, 91 * 24, 96 * 24}
 
 	for i := 0; i < n; i++ {
 		s.caseN = i
@@ -249,7 +252,10 @@ func (s *verifHoldCtlSuite) TestVerifHoldCtlRun(c *C) {
 
 		for k := 0; k < length; k++ {
 			if r.Intn(100) < 35 {
-				d := ticks[r.Intn(len(ticks))]
+				d := smallTicks[r.Intn(len(smallTicks))]
+				if r.Intn(6) == 0 {
+					d = bigTicks[r.Intn(len(bigTicks))]
+				}
 				s.shiftBack(c, d)
 				for s.onBoundary(c) {
 					s.shiftBack(c, 1)
